@@ -4,6 +4,7 @@ import (
 	"fmt"
 	"go/token"
 	"go/types"
+	"strings"
 
 	"golang.org/x/tools/go/ssa"
 
@@ -260,4 +261,167 @@ func ruleDecoderRoots(c *core.Ctx, d *decoderSet, rule string) int {
 		}
 	}
 	return n
+}
+
+// ruleStructGoFieldNames: the Go representation of a struct type (and of a
+// tuple) names its fields after the members: every reflect.StructField built
+// by StructType.Type / TupleType.Type — directly, or in the functions of the
+// package they hand the members to — takes its Name from the Name of a member.
+// type/conversion matches struct fields by name; a representation with
+// positional or fabricated names converts to a zero value without an error.
+func ruleStructGoFieldNames(c *core.Ctx, rule string) {
+	member := c.Named("meta/signature", "MemberType")
+	if member == nil {
+		c.Undecided(rule, "meta/signature.MemberType", token.NoPos, "anchor not found")
+		return
+	}
+	isMemberName := func(v ssa.Value) bool {
+		var st types.Type
+		var idx int
+		switch x := v.(type) {
+		case *ssa.Field:
+			st, idx = x.X.Type(), x.Field
+		case *ssa.UnOp:
+			fa, ok := x.X.(*ssa.FieldAddr)
+			if !ok || x.Op != token.MUL {
+				return false
+			}
+			st, idx = fa.X.Type().Underlying().(*types.Pointer).Elem(), fa.Field
+		default:
+			return false
+		}
+		if !types.Identical(st, member) {
+			return false
+		}
+		s, _ := member.Underlying().(*types.Struct)
+		return s != nil && idx < s.NumFields() && s.Field(idx).Name() == "Name"
+	}
+	var derives func(v ssa.Value, depth int) bool
+	derives = func(v ssa.Value, depth int) bool {
+		if depth > 6 {
+			return false
+		}
+		v = core.Canon(v)
+		if isMemberName(v) {
+			return true
+		}
+		switch x := v.(type) {
+		case *ssa.Call:
+			for _, a := range x.Call.Args {
+				if derives(a, depth+1) {
+					return true
+				}
+			}
+		case *ssa.Phi:
+			for _, e := range x.Edges {
+				if !derives(e, depth+1) {
+					return false
+				}
+			}
+			return len(x.Edges) > 0
+		case *ssa.BinOp:
+			return derives(x.X, depth+1) || derives(x.Y, depth+1)
+		case *ssa.Convert:
+			return derives(x.X, depth+1)
+		case *ssa.ChangeType:
+			return derives(x.X, depth+1)
+		case *ssa.Extract:
+			return derives(x.Tuple, depth+1)
+		case *ssa.Parameter:
+			// a helper's parameter: every static call site passes a member name
+			fn := x.Parent()
+			if !isPrivateHelper(c, fn) {
+				return false
+			}
+			all, _ := c.CallSites()
+			sites := all[fn]
+			pi := -1
+			for i, p := range fn.Params {
+				if p == x {
+					pi = i
+				}
+			}
+			if len(sites) == 0 || pi < 0 {
+				return false
+			}
+			for _, cs := range sites {
+				if pi >= len(cs.Common().Args) || !derives(cs.Common().Args[pi], depth+1) {
+					return false
+				}
+			}
+			return true
+		}
+		return false
+	}
+	n := 0
+	for _, recv := range []string{"StructType", "TupleType"} {
+		root := c.Func("meta/signature", recv, "Type")
+		if root == nil {
+			c.Undecided(rule, "meta/signature."+recv+".Type", token.NoPos, "anchor not found")
+			continue
+		}
+		// the function and the functions of its package it calls (two levels)
+		unit := []*ssa.Function{root}
+		seen := map[*ssa.Function]bool{root: true}
+		for i := 0; i < len(unit) && i < 12; i++ {
+			for _, call := range core.Calls(unit[i]) {
+				f := core.StaticCallee(call)
+				if f == nil || seen[f] || f.Pkg != root.Pkg || len(f.Blocks) == 0 {
+					continue
+				}
+				// only callees that take part in building the representation
+				res := f.Signature.Results()
+				if res.Len() == 0 {
+					continue
+				}
+				takes := false
+				for j := 0; j < res.Len(); j++ {
+					if core.TypeIs(res.At(j).Type(), "reflect", "Type") || core.TypeIs(res.At(j).Type(), "reflect", "StructField") || strings.Contains(res.At(j).Type().String(), "reflect.StructField") {
+						takes = true
+					}
+				}
+				if !takes {
+					continue
+				}
+				// the Type() of a member type is another type's representation, not this one's
+				if f.Name() == "Type" && f != root && !(recv == "StructType" && f == c.Func("meta/signature", "TupleType", "Type")) {
+					continue
+				}
+				seen[f] = true
+				unit = append(unit, f)
+			}
+		}
+		found := 0
+		for _, fn := range unit {
+			for _, b := range fn.Blocks {
+				for _, in := range b.Instrs {
+					st, ok := in.(*ssa.Store)
+					if !ok {
+						continue
+					}
+					fa, ok := st.Addr.(*ssa.FieldAddr)
+					if !ok {
+						continue
+					}
+					pt, ok := fa.X.Type().Underlying().(*types.Pointer)
+					if !ok || !core.TypeIs(pt.Elem(), "reflect", "StructField") {
+						continue
+					}
+					sf, _ := pt.Elem().Underlying().(*types.Struct)
+					if sf == nil || sf.Field(fa.Field).Name() != "Name" {
+						continue
+					}
+					found++
+					n++
+					key := fmt.Sprintf("meta/signature.%s.Type/field-name@%s#%d", recv, core.FuncKey(fn), found)
+					c.Check(derives(st.Val, 0), rule, key, st.Pos(), "the Go field is named after the member",
+						"the Go representation of a "+recv+" names a field with something that does not come from the member's name: the struct type conversion matches fields by name, so a value converted into the declared struct comes out zero without an error, and the representation no longer agrees with the signature's member names")
+				}
+			}
+		}
+		if found == 0 {
+			c.Undecided(rule, "meta/signature."+recv+".Type", root.Pos(), "no reflect.StructField is built by "+recv+".Type or the functions it hands its members to: the rule cannot see how the fields are named")
+		}
+	}
+	_ = n
 }
